@@ -177,6 +177,9 @@ def alphabet(model, seed: int):
         calls.append({"k": "sid", "s": s})
     for s in strings[:4]:
         calls.append({"k": "sid_kw", "s": s})
+    for s in strings[:10]:
+        for tt in list(m.types_all(s.split("?")[0]))[:2]:
+            calls.append({"k": "sid_of_sid", "s": tt + ":" + s})
     for t, f, s in picked[:4]:
         calls.append({"k": "sid", "s": t + ":" + s})
         items = list(f.items())
@@ -264,6 +267,11 @@ def families(model, seed: int):
             calls.append({"k": "unfold", "s": x, "u": False, "e": False, "style": "pos"})
             calls.append({"k": "find", "finder": "list", "s": x, "consume": None})
             calls.append({"k": "match", "uri": t + ":" + s, "s": x})
+        for x in strings[:6]:
+            # the same string as a plain string, and as Sid OBJECTS forced to every type accepting it
+            for tt in list(m.types_all(x.split("?")[0]))[:3]:
+                calls.append({"k": "sid_of_sid", "s": tt + ":" + x})
+                calls.append({"k": "sid", "s": tt + ":" + x})
         for x in strings[:4]:
             calls.append({"k": "sid", "s": x})
             calls.append({"k": "unfold", "s": x, "u": False, "e": True, "style": "kw"})
@@ -284,7 +292,7 @@ def request_key(c):
         return ("path", c["uri"], cfg)
     if c["k"] == "unfold":
         return ("unfold", c["s"], c["u"], c["e"])
-    if c["k"] in ("sid", "sid_kw"):
+    if c["k"] in ("sid", "sid_kw", "sid_of_sid"):
         return ("sid", c["s"])
     return None
 
